@@ -1136,6 +1136,29 @@ impl Transaction {
             }
 
             //
+            // must spend only the signer's own slips
+            //
+            // the signature above speaks for the public_key of the first input only, so
+            // every other input that carries value must belong to that same key. without
+            // this anyone could append somebody else's unspent slip to their own inputs.
+            // (zero-amount inputs are placeholders which are not looked up in the utxoset,
+            // e.g. the tracking slip of an NFT whose public_key field holds the NFT id)
+            //
+            let sender: SaitoPublicKey = self.from[0].public_key;
+            if let Some(foreign_slip) = self
+                .from
+                .iter()
+                .find(|slip| slip.amount > 0 && slip.public_key != sender)
+            {
+                error!(
+                    "ERROR 757294: transaction signed by {:?} spends a slip owned by {:?}",
+                    sender.to_base58(),
+                    foreign_slip.public_key.to_base58()
+                );
+                return false;
+            }
+
+            //
             // validate routing path sigs
             //
             // it strengthens censorship-resistance and anti-MEV properties in the network
